@@ -569,6 +569,8 @@ def draw_common_options(rng, fp, force=()):
     if rng.random() < .25:
         d = float(fp["ext"] * 10.0**rng.uniform(-2, -0.3)) if rng.random() < .8 else 0.0
         a = float(rng.uniform(0, 60))
+        if rng.random() < .2:
+            a = float([270.0, 360.0, 999.0, 181.0, 540.0][rng.integers(5)])  # beyond a half turn: the angle criterion is switched off
         o["motion_filter"] = (d, a)
         argv += ["--motion_filter", repr(d), repr(a)]
     if fp["fmt"] != "kitti":
